@@ -125,6 +125,51 @@ Definition sfile_ok (sf : sfile) : Prop :=
 Definition rfile_ok (rf : rfile) : Prop :=
   sfile_ok (rf_main rf) /\ forall p sf, In (p, sf) (bundle_files rf) -> sfile_ok sf.
 
+(* ---------------------------------------------------------------- decidable well-formedness (used for concrete examples) *)
+Fixpoint nodupb (l : list N) : bool :=
+  match l with [] => true | x :: l' => negb (existsb (N.eqb x) l') && nodupb l' end.
+
+Lemma nodupb_sound l : nodupb l = true -> NoDup l.
+Proof.
+  induction l as [|x l IH]; cbn; intros H; [constructor|]. apply andb_true_iff in H. destruct H as [H1 H2].
+  constructor; [|now apply IH]. intros Hin. apply negb_true_iff in H1.
+  assert (existsb (N.eqb x) l = true); [|congruence]. apply existsb_exists. exists x. split; [assumption|apply N.eqb_refl].
+Qed.
+
+Definition memb (x : N) (l : list N) : bool := existsb (N.eqb x) l.
+Lemma memb_sound x l : memb x l = true -> In x l.
+Proof. unfold memb. intros H. apply existsb_exists in H. destruct H as (y & Hy & E). apply N.eqb_eq in E. now subst. Qed.
+
+Definition tags_okb (k : rkind) : bool :=
+  match k with RSyntax ts => negb (match ts with [] => true | _ => false end) && forallb (fun t => memb t (LoadModel.tags NB)) ts | _ => true end.
+
+Definition sfile_okb (sf : sfile) : bool :=
+  nodupb (map fg_name (sf_groups sf)) &&
+  forallb (fun d => forallb (fun c => memb c (map f_name (sf_decls sf))) (f_calls d)) (sf_decls sf) &&
+  forallb (fun g => forallb (fun r => match gr_fn r with Some f => memb f (map f_name (sf_decls sf)) | None => true end) (fg_rules g)) (sf_groups sf) &&
+  forallb (fun g => forallb (fun r => tags_okb (gr_kind r)) (fg_rules g)) (sf_groups sf).
+
+Lemma sfile_okb_sound sf : sfile_okb sf = true -> sfile_ok sf.
+Proof.
+  unfold sfile_okb. intros H. apply andb_true_iff in H. destruct H as [H H4]. apply andb_true_iff in H. destruct H as [H H3].
+  apply andb_true_iff in H. destruct H as [H1 H2]. split; [now apply nodupb_sound|]. split; [|split].
+  - intros d c Hd Hc. rewrite forallb_forall in H2. specialize (H2 d Hd). rewrite forallb_forall in H2. apply memb_sound. now apply H2.
+  - intros g r f Hg Hr Hf. rewrite forallb_forall in H3. specialize (H3 g Hg). rewrite forallb_forall in H3. specialize (H3 r Hr).
+    rewrite Hf in H3. now apply memb_sound.
+  - intros g r Hg Hr. rewrite forallb_forall in H4. specialize (H4 g Hg). rewrite forallb_forall in H4. specialize (H4 r Hr).
+    unfold tags_okb in H4. unfold tags_ok. destruct (gr_kind r) as [ts| |]; try exact I.
+    apply andb_true_iff in H4. destruct H4 as [Ha Hb]. split; [destruct ts; [discriminate|congruence]|].
+    intros t Ht. rewrite forallb_forall in Hb. apply memb_sound. now apply Hb.
+Qed.
+
+Definition rfile_okb (rf : rfile) : bool := sfile_okb (rf_main rf) && forallb (fun ps => sfile_okb (snd ps)) (bundle_files rf).
+
+Lemma rfile_okb_sound rf : rfile_okb rf = true -> rfile_ok rf.
+Proof.
+  unfold rfile_okb. intros H. apply andb_true_iff in H. destruct H as [H1 H2]. split; [now apply sfile_okb_sound|].
+  intros p sf Hin. rewrite forallb_forall in H2. apply sfile_okb_sound. exact (H2 (p, sf) Hin).
+Qed.
+
 (* ---------------------------------------------------------------- a single file *)
 Lemma resolve_all_spec env rs l : resolve_all env rs = Some l ->
   map (fun x => lr_id (fst x)) l = map gr_id rs /\ map snd l = map gr_kind rs.
